@@ -564,9 +564,13 @@ def run(ctx):
     # R5: the fast and the byte-wise scanners agree (what arrives in one piece takes the fast path, what arrives in
     # pieces the byte-wise one): plumbing and exact scanning behaviour of C13, run here too
     from . import c13
-    r5 = ctx.rule("C01-R5", "the byte-wise digit scanners behave exactly as documented and the fast paths hand over to them unchanged (shared with C13-R3/R4)", floor=60)
+    r5 = ctx.rule("C01-R5", "the byte-wise digit scanners behave exactly as documented and the fast paths hand over to them unchanged, with the same overflow verdict (shared with C13-R1/R1b/R3/R4)", floor=60)
     c13.run_r3(ctx, r5)
     c13.run_r4(ctx, r5)
+    # .. including the verdict on overflow: a number the one-piece path rejects must not be accepted (wrapped) by the
+    # byte-wise path that input arriving in pieces takes (C13-R1/R1b: every step through overflowing_*, None iff a step overflowed)
+    c13.run_r1(ctx, r5)
+    c13.run_r1b(ctx, r5)
     r6 = ctx.rule("C01-R6", "the byte-wise keyword scan stops at the first byte that is not a letter, like the word kernel (prefix scan)", floor=1)
     run_r6(ctx, r6)
     from .c02 import run_r9 as c02_r9
